@@ -107,7 +107,7 @@ CHECKS = {
         note=TRUSTED),
     "C10": dict(
         level="model_checking",
-        technique='TLA+ spec (Ante.tla decision table) + TLC exhaustive case table + replay of every case as a real signed transaction through every execution mode + TLC trace validation',
+        technique='TLA+ spec (Ante.tla decision table; Relayer.tla for who the current proposer is) + TLC exhaustive case table + replay of every case as a real signed transaction through every execution mode + TLC trace validation, also of relayer histories with CheckTx probes at every committed state',
         text="The admission table is enumerated completely and the statement of C10 is checked on it; every row is executed against the real application (registered message types enumerated at run time) and the admitted / refused verdict and the 'refused changes nothing' app-hash comparison are validated by TLC.",
         note=TRUSTED),
     "C18": dict(
